@@ -29,18 +29,24 @@ META = {
     'stubs': ['api.patch -> FakeServer'],
     'assumptions': [],
 }
-STEPS = ['relist', 'edit', 'restart', 'fail_next_resume', 'delete', 'status_edit', 'delete_while_down']
+STEPS = ['relist', 'edit', 'restart', 'fail_next_resume', 'delete', 'status_edit', 'delete_while_down', 'label_on']
 
 
 def run_history(cell, steps):
     w = ClosedLoop(base_body(), storage=cell.get('storage', 'smart'))
-    w.add_handler(kopf.on.create, 'hc')
-    w.add_handler(kopf.on.update, 'hu')
-    w.add_handler(kopf.on.resume, 'hr')
-    w.add_handler(kopf.on.resume, 'hrd', deleted=True)
-    w.add_handler(kopf.on.resume, 'hrn', deleted=False)      # an explicit opt-out is an opt-out, too
-    if cell.get('delete_handler', True):
-        w.add_handler(kopf.on.delete, 'hd')
+    if cell.get('filtered_resume'):
+        # the only resume handler is filtered out when the process first sees the object: that first cycle selects NO handler
+        # (and still counts as "handled once": a label added later is an update, not a late resumption)
+        w.add_handler(kopf.on.update, 'hu')
+        w.add_handler(kopf.on.resume, 'hrl', labels={'run': 'yes'})
+    else:
+        w.add_handler(kopf.on.create, 'hc')
+        w.add_handler(kopf.on.update, 'hu')
+        w.add_handler(kopf.on.resume, 'hr')
+        w.add_handler(kopf.on.resume, 'hrd', deleted=True)
+        w.add_handler(kopf.on.resume, 'hrn', deleted=False)      # an explicit opt-out is an opt-out, too
+        if cell.get('delete_handler', True):
+            w.add_handler(kopf.on.delete, 'hd')
     listings = []     # (incarnation, handled_before, deleting) at each listing event
 
     async def listing():
@@ -48,7 +54,7 @@ def run_history(cell, steps):
         if obj is None:
             return
         listings.append((w.incarnation, read_lhc(obj, w.storage) is not None and not progress_keys(obj, w.storage),
-                         obj['metadata'].get('deletionTimestamp') is not None))
+                         obj['metadata'].get('deletionTimestamp') is not None, obj['metadata'].get('labels', {}).get('run') == 'yes'))
         w.needs_listing = False
         await w.deliver_listing()
 
@@ -70,6 +76,8 @@ def run_history(cell, steps):
                     continue
                 if name == 'edit':
                     w.server.write(lambda o: o['spec'].update(x=o['spec']['x'] + 1))
+                elif name == 'label_on':
+                    w.server.write(lambda o: o['metadata'].setdefault('labels', {}).update(run='yes'))
                 elif name == 'status_edit':
                     w.server.write(lambda o: o.setdefault('status', {}).update(seen='y'))
                 elif name == 'restart':
@@ -122,7 +130,20 @@ def h_resume(s0: int, s1: int, s2: int, s3: int) -> bool:
     except (Deadlock, Diverged, Livelock):
         return vkopf.verdict(False)
     ok = bool(conv)
-    incs = sorted({i for i, _, _ in listings})
+    incs = sorted({l[0] for l in listings})
+    if c.get('filtered_resume'):
+        for inc in incs:
+            first = [l for l in listings if l[0] == inc][0]
+            ran = [i for i in w.invocations if i['id'] == 'hrl' and i['incarnation'] == inc]
+            if not first[3]:
+                vkopf.witness('filtered_at_first_sight')
+                if ran:
+                    ok = False                   # filtered out when first seen by this process: never resumed later in it
+            elif first[1] and not first[2] and inc == incs[-1] and not any(i['outcome'] == 0 for i in ran):
+                ok = False
+            if len([i for i in ran if i['outcome'] == 0]) > 1:
+                ok = False
+        return vkopf.verdict(ok)
     for inc in incs:
         for hid in ('hr', 'hrd', 'hrn'):
             succ = [i for i in w.invocations if i['id'] == hid and i['incarnation'] == inc and i['outcome'] == 0]
@@ -157,6 +178,9 @@ def obligations():
                 s0=list(range(7)))
     obs.append(Ob('h_resume', {'n': 3, 'handled_before': True, 'pin': {'s0': 3, 's1': 2, 's2': 1}}, timeout=900, path_timeout=300))
     obs.append(Ob('h_resume', {'n': 3, 'handled_before': True, 'pin': {'s0': 3, 's1': 2, 's2': 0}}, timeout=900, path_timeout=300))
+    for (a, b) in ((7, 1), (7, 2), (1, 7)):
+        obs.append(Ob('h_resume', {'n': 2, 'handled_before': True, 'filtered_resume': True, 'pin': {'s0': a, 's1': b}}, timeout=900, path_timeout=300,
+                      twins=['filtered_at_first_sight'] if (a, b) == (7, 1) else []))
     R = list(range(7))
     # thorough: the first two steps pinned per cell, the third one symbolic (a path costs ~1.5 s here)
     obs += split(Ob('h_resume', {'n': 3, 'handled_before': False}, timeout=900, path_timeout=300, tiers=('thorough',)), s0=R, s1=[0, 1, 2, 4, 6])
